@@ -204,6 +204,10 @@ where
                         server_pending = true;
                     }
                 }
+            } else {
+                // No replier is bound, so there is nothing to wait for on this side. A new
+                // replier arrives via `handle`, which has been polled to pending above.
+                server_pending = true;
             }
 
             // If we've got a reply buffered already, we need to write it to the sink
@@ -242,6 +246,10 @@ where
                         let si = &mut server.as_mut().as_pin_mut().unwrap().0;
                         ready!(si.poll_flush_unpin(cx)).unwrap();
                     }
+
+                    // No requestor is connected, so there is nothing to wait for on this
+                    // side. A new requestor arrives via `handle`.
+                    stream_pending = true;
                 }
                 // No messages are available at this time
                 Poll::Pending => {
